@@ -181,6 +181,16 @@ theorem c11_delivery_applies_listers_object (env : Env) (conn : Conn) (hl : Lowe
   rw [h] at this
   exact ⟨this.2, this.1.1⟩
 
+/-- **deletion then re-creation = fresh**: after any sequence of ops, when nothing is served under a cluster's name
+    (it never existed, or its deletion was delivered), the delivery that brings it back installs exactly the
+    `ClusterInfo` `CreateClusterInfo` builds from the lister's current object — nothing of an earlier incarnation -/
+theorem c11_recreate_is_fresh (env : Env) (conn : Conn) (hl : LowerIdem env) (ops : List COp) (st st' : Ctl)
+    (hv : ∀ op ∈ ops, ValidOp env op) (hrun : Ctl.run env conn (some Ctl.init) ops = some st)
+    (X : Str) (hX : env.lower X = X) (o : Obj) (ord : List Str) (hlis : alookup X st.lister = some o)
+    (hg : st.get env X = none) (h : syncUpstreamCluster env conn st X ord = .done st') :
+    ∃ f, fresh env conn o ord = .ok f ∧ st'.get env X = some (st.heap.length, f) :=
+  create_is_fresh hl ord (run_inv hl ops Ctl.init st (AllInv_init env conn) hv hrun).cinv hX hlis hg h
+
 /-- **C11 (controller)**: for EVERY sequence of API writes and deletes of any clusters (with overlapping, moving,
     conflicting server names) and queue deliveries in ANY order — refused and failed deliveries stay pending and are
     delivered again whenever, long after newer versions were applied — as long as the gateway is alive: every cluster
@@ -249,23 +259,6 @@ theorem c11_controller_wf (env : Env) (conn : Conn) (hl : LowerIdem env) (ops : 
   exact ⟨hA.cinv.keysSub, fun id ci h => ⟨(hA.cinv.heapOK id ci h).1, (hA.cinv.heapOK id ci h).2.2⟩⟩
 
 /-! ## effective routing is determined by the observation -/
-
-theorem mem_allEndpoints (c : CI) (ep : Str) : ep ∈ allEndpoints c ↔ (loadEndpoint c ep).isSome = true := by
-  unfold allEndpoints loadEndpoint akeys
-  induction c.eps with
-  | nil => simp [alookup]
-  | cons kv r ih =>
-    obtain ⟨k, v⟩ := kv
-    simp only [List.map_cons, List.mem_cons, alookup]
-    by_cases h : k = ep
-    · simp [h]
-    · simp only [h, if_false, ← ih]
-      constructor
-      · intro x
-        cases x with
-        | inl e => exact absurd e.symm h
-        | inr m => exact m
-      · intro m; exact Or.inr m
 
 /-- two `ClusterInfo`s with the same observation route every request identically: same policy, same flow-control
     schema and limiter, same logging decision, same set of candidate endpoints (`MatchAttributes`) -/
